@@ -380,7 +380,13 @@ def judge(chk, work, drv, cases, gen_notes, quick, collect_design=None):
         slim.append([h] + s[1:])
     by_case = {s[0]["case"]: s for s in clean}
     chunks = 6 if quick else 14
-    mslim = slim if not quick else slim[::2]
+    # M-level conformance: every case in the thorough tier, every other case of each data type in the quick tier
+    mslim, nth = [], {}
+    for sg in slim:
+        k = sg[0]["kind"]
+        nth[k] = nth.get(k, 0) + 1
+        if not quick or nth[k] % 2 == 1:
+            mslim.append(sg)
     with concurrent.futures.ThreadPoolExecutor(max_workers=2) as ex:
         fobs = ex.submit(V.fold_traces, work, "CRDTObs", "CRDTObs.cfg", slim, 2400, "trace.ndjson", chunks, 4)
         fimp = ex.submit(V.fold_traces, work, "CRDTImplTrace", "CRDTImplTrace.cfg", mslim, 2400, "trace.ndjson",
@@ -464,8 +470,10 @@ def judge(chk, work, drv, cases, gen_notes, quick, collect_design=None):
         "layout changes the dumps are dropped (drift) and values are judged by Read() only",
     ]
     chk.gaps += ["the CRDT resource around the values (broadcast, merge queue, abort) is C13"]
-    return chk.finish(rule="every transition of the complete history graph of CRDTTypes.tla (quick: seeded sample of the "
-                           "edge-covering walks; thorough: all of them) + TLC-simulated long histories + TLC counterexamples of "
+    return chk.finish(rule="walks covering every transition of the complete history graph of CRDTTypes.tla (2 replicas, 1 element, "
+                           "3 updates, 1 message slot; quick: seeded sample of the covering walks, thorough: all of them + a seeded "
+                           "sample of the covering walks of the 4-update graph) + TLC-simulated long histories (3 replicas, 2 "
+                           "elements, 8 updates, 2 slots) + TLC counterexamples of "
                            "the pinned-tree transcriptions, each replayed on real GCounter/AWORSet/LWWSet values (ids/elements "
                            "from 6 value universes), followed by law probes (a|b vs b|a, a|a, (a|b)|c vs a|(b|c), s|w, gob); "
                            "every recorded value folded by TLC into CRDTObs.tla (ReadOK, StateFn) and CRDTImplTrace.tla (drift)")
